@@ -8,6 +8,7 @@ import (
 	"github.com/textwire/textwire/v2/fail"
 	"github.com/textwire/textwire/v2/lexer"
 	"github.com/textwire/textwire/v2/parser"
+	"github.com/textwire/textwire/v2/utils"
 )
 
 func parseStr(text string) (*ast.Program, []*fail.Error) {
@@ -44,7 +45,8 @@ func parseProgram(absPath string) (*ast.Program, *fail.Error, error) {
 func parsePrograms(paths map[string]string) (map[string]*ast.Program, *fail.Error) {
 	var result = map[string]*ast.Program{}
 
-	for name, absPath := range paths {
+	for _, name := range utils.SortedKeys(paths) {
+		absPath := paths[name]
 		prog, failErr, parseErr := parseProgram(absPath)
 		if parseErr != nil {
 			return nil, fail.FromError(parseErr, 0, absPath, "template")
